@@ -39,7 +39,7 @@ for name in sorted(os.listdir(root)):
         },
         "ran": [
             "tools/verify_seed.sh %s <agent dir>  (demo without/with patch, avt suite with patch)" % name,
-            "git -C /repo apply seeded/%s/patch.diff; ./check C01..C20 quick (evidence redirected); git -C /repo checkout -- ." % name,
+            "git -C /repo apply seeded/%s/patch.diff; ./check <%s> quick (evidence redirected); git -C /repo checkout -- ." % (name, (re.search(r"checks_run: (.*)", text).group(1) if re.search(r"checks_run: (.*)", text) else "C01..C20")),
         ],
         "caught_by_quick_checks": caught_list,
         "first_counterexamples": first,
